@@ -53,14 +53,13 @@ func (c *DelegatedFunction) Name() string {
 //   - variantOperations: Variants operations manager.
 // Returns: A calculated function result.
 func (c *DelegatedFunction) Calculate(parameters []*variants.Variant,
-	variantOperations variants.IVariantOperations) (*variants.Variant, error) {
-	var result *variants.Variant
-	var err error
+	variantOperations variants.IVariantOperations) (result *variants.Variant, err error) {
 
 	// Capture calculation error
 	defer func() {
 		if r := recover(); r != nil {
 			message := cconv.StringConverter.ToString(r)
+			result = nil
 			err = errors.NewExpressionError("", "CALC_FAILED", message, 0, 0)
 		}
 	}()
